@@ -15,8 +15,8 @@ def main(tier):
     chk = Check("C16", "model_checking", tier, quick_s=170, thorough_s=1500)
     chk.clean_replays()
     depth = 6 if tier == "quick" else 7
-    chk.rule = ("(a) every history of <= %d operations over 23 operations on 2 key and 2 ephemeron slots, de-duplicated on the reachability "
-                "graph; (b) every history of <= 5 port operations; distinct_nontrivial = distinct reachability graphs + port histories" % depth)
+    chk.rule = ("(a) every history of <= %d operations over 27 operations on 2 key and 2 ephemeron slots, de-duplicated on the reachability "
+                "graph, and every history one shorter over 39 operations (the 12 extra ones create ephemerons whose key is an immediate); (b) every history of <= 5 port operations; distinct_nontrivial = distinct reachability graphs + port histories" % depth)
     chk.assumptions = ["the harness owns all roots (a preserved vector); object addresses are compared, never dereferenced unless the model "
                        "says the object is live", "Linux /proc/self/fd"]
     out = build.build_variant("asan")
@@ -25,18 +25,19 @@ def main(tier):
     # (the collector's ephemeron fix-point then has to hold across segments); the second one is a level shallower
     from concurrent.futures import ThreadPoolExecutor
     def run_ephmc(a):
-        dpt, multi = a
-        return a, subprocess.run([os.path.join(out, "harness", "ephmc"), str(dpt), str(multi)], env=e, stdout=subprocess.PIPE, preexec_fn=common.die_with_parent,
+        dpt, multi, imm = a
+        return a, subprocess.run([os.path.join(out, "harness", "ephmc"), str(dpt), str(multi), str(imm)], env=e, stdout=subprocess.PIPE, preexec_fn=common.die_with_parent,
                                  stderr=subprocess.STDOUT, timeout=3000)
-    FDS2_OPS = 12
+    FDS2_OPS = 13
     def run_fds2(k):
-        # two slots x three kinds of owner (file port, port on a descriptor object, bare descriptor object), every history of <= 4
+        # two slots x three kinds of owner (file port, port on a descriptor object, bare descriptor object; also a descriptor object
+        # whose close(2) failed because its number had been closed by raw number), every history of <= 4
         # operations on the plain build; one process per first operation
         build.build_variant("opt")
         return common.evalbatch("opt", [os.path.join(common.VERIF, "scheme", "weak", "fds2.scm")], timeout=1200, env={"FDS2_FIRST": str(k)})
     with ThreadPoolExecutor(common.NCPU) as ex:
         futs = [ex.submit(run_fds2, k) for k in range(FDS2_OPS)]
-        runs = list(ex.map(run_ephmc, [(depth, 0), (depth - 1, 1)]))
+        runs = list(ex.map(run_ephmc, [(depth, 0, 0), (depth - 1, 1, 0), (depth - 1, 0, 1), (depth - 2, 1, 1)]))
         r2s = [f.result() for f in futs]
     nh2 = 0
     for k, r2 in enumerate(r2s):
@@ -55,12 +56,12 @@ def main(tier):
         if (int(mm.group(2)) and "FD2-MISMATCH" not in r2.out) or (int(mm.group(3)) and "FD2-LEFTOVER" not in r2.out):
             chk.violation({"op": "fd-final-count", "first": k}, "%s histories failed / %s left descriptors open" % (mm.group(2), mm.group(3)))
     chk.cov["port_histories_two_slots"] = nh2
-    for (dpt, multi), p in runs:
+    for (dpt, multi, imm), p in runs:
         txt = p.stdout.decode("utf-8", "replace")
         m = re.search(r"STATS states=(\d+) transitions=(\d+) depth=(\d+) alphabet=(\d+) gc_transitions=(\d+) violations=(\d+)", txt)
         if not m or "AddressSanitizer" in txt or p.returncode not in (0, 1):
             chk.violation({"op": "ephmc-crash", "segments": 2 if multi else 1}, "ephmc (depth %d, %s) ended abnormally rc=%s: %s" % (
-                dpt, "two segments" if multi else "one segment", p.returncode, txt[-800:]))
+                dpt, ("two segments" if multi else "one segment") + (", immediate keys" if imm else ""), p.returncode, txt[-800:]))
             continue
         states, trans = int(m.group(1)), int(m.group(2))
         chk.count(trans, outcome="eph-transition")
